@@ -13,6 +13,8 @@ Local Open Scope string_scope.
 Local Open Scope list_scope.
 Local Open Scope Z_scope.
 
+Ltac Zify.zify_post_hook ::= idtac.      (* Proofs/LexExt.v turns it on; the goals here have no use for it *)
+
 Ltac fold_ef := repeat match goal with |- context [VEF (Z.of_N ?m) ?e] => change (VEF (Z.of_N m) e) with (ef_val (mkEF m e)) end.
 
 Lemma ltb_N a b : (Z.of_N a <? Z.of_N b) = (a <? b)%N.
@@ -147,12 +149,18 @@ Proof. change (Z.to_N 32) with 32%N. rewrite N.shiftr_div_pow2. reflexivity. Qed
 Lemma lomask m : N.land m (Z.to_N 4294967295) = (m mod two32N)%N.
 Proof. change (Z.to_N 4294967295) with (N.ones 32). rewrite N.land_ones. reflexivity. Qed.
 
+Lemma mul32 a b : (a < 4294967296)%N -> (b < 4294967296)%N -> 0 <= Z.of_N a * Z.of_N b <= 18446744073709551615.
+Proof. intros Ha Hb. nia. Qed.
+Lemma mul32N a b : (a < 4294967296)%N -> (b < 4294967296)%N -> (a * b < two64N)%N.
+Proof. intros Ha Hb. unfold two64N. nia. Qed.
+Lemma mul32N' a b : (a < 4294967296)%N -> (b < 4294967296)%N -> (a * b <= 18446744065119617025)%N.
+Proof. intros Ha Hb. nia. Qed.
+
 Theorem mul_src : forall a b f, ef_ok a -> ef_ok b -> (two32N <= mant a)%N -> (two32N <= mant b)%N ->
   i32_ok (exp a + exp b) -> i32_ok (exp a + exp b + 64) -> (2 <= f)%nat ->
   call f G "ExtendedFloat::mul" [ef_val a; ef_val b] = Ok (ef_val (ef_mul a b), []).
 Proof.
   intros [ma ea] [mb eb] f [Hma Hea] [Hmb Heb] Ha32 Hb32 Hx1 Hx2 Hf. cbn [mant exp] in *.
-  pose proof (ef_mul_round (mkEF ma ea) (mkEF mb eb) Hma Hmb) as [_ Hround].
   do 2 fuel1. enter LA_ExtendedFloat_mul. unfold ef_val, ef_mul in *. cbn [mant exp] in *.
   step. unfold nbits. rewrite !N2Z.id. change (Z.to_N 18446744069414584320) with 18446744069414584320%N.
   change 0 with (Z.of_N 0). rewrite !eqb_N.
@@ -168,26 +176,25 @@ Proof.
   remember (ma / two32N)%N as ah eqn:Eah. remember (ma mod two32N)%N as al eqn:Eal.
   remember (mb / two32N)%N as bh eqn:Ebh. remember (mb mod two32N)%N as bl eqn:Ebl.
   unfold two32N in Hah, Hal, Hbh, Hbl.
-  step. rewrite checked_ok by (apply in_range_u64; nia). rewrite <- N2Z.inj_mul. cbn.
-  step. rewrite checked_ok by (apply in_range_u64; nia). rewrite <- N2Z.inj_mul. cbn.
-  step. rewrite checked_ok by (apply in_range_u64; nia). rewrite <- N2Z.inj_mul. cbn.
-  step. rewrite checked_ok by (apply in_range_u64; nia). rewrite <- N2Z.inj_mul. cbn.
-  assert (Hp1 : (ah * bl < two64N)%N) by (unfold two64N; nia).
-  assert (Hp2 : (al * bh < two64N)%N) by (unfold two64N; nia).
-  assert (Hp3 : (al * bl < two64N)%N) by (unfold two64N; nia).
+  step. rewrite checked_ok by (apply in_range_u64, mul32; assumption). rewrite <- N2Z.inj_mul. cbn.
+  step. rewrite checked_ok by (apply in_range_u64, mul32; assumption). rewrite <- N2Z.inj_mul. cbn.
+  step. rewrite checked_ok by (apply in_range_u64, mul32; assumption). rewrite <- N2Z.inj_mul. cbn.
+  step. rewrite checked_ok by (apply in_range_u64, mul32; assumption). rewrite <- N2Z.inj_mul. cbn.
+  assert (Hp1 : (ah * bl < two64N)%N) by (apply mul32N; assumption).
+  assert (Hp2 : (al * bh < two64N)%N) by (apply mul32N; assumption).
+  assert (Hp3 : (al * bl < two64N)%N) by (apply mul32N; assumption).
+  assert (Hah_bh : (ah * bh <= 18446744065119617025)%N) by (apply mul32N'; assumption).
   remember (ah * bl)%N as ah_bl eqn:E1. remember (al * bh)%N as al_bh eqn:E2.
   remember (al * bl)%N as al_bl eqn:E3. remember (ah * bh)%N as ah_bh eqn:E4.
   step. unfold nbits. rewrite !N2Z.id, !lomask. rewrite int_shr_ok by lia. rewrite shr32. cbn.
   pose proof (mod32_lt ah_bl) as Hl1. pose proof (mod32_lt al_bh) as Hl2. pose proof (div32_lt al_bl Hp3) as Hl3.
-  unfold two32N in Hl1, Hl2, Hl3. 
+  unfold two32N in *.
   rewrite checked_ok by (apply in_range_u64; lia). cbn. rewrite <- N2Z.inj_add.
   rewrite checked_ok by (apply in_range_u64; lia). cbn. rewrite <- N2Z.inj_add.
-  step. change (Z.of_N 1) with 1. rewrite (int_shl_ok 1 31) by lia.
-  change (Z.of_N (N.shiftl 1 (Z.to_N 31) mod two64N)) with (Z.of_N 2147483648). cbn.
-  rewrite checked_ok by (apply in_range_u64; lia). cbn. rewrite <- N2Z.inj_add.
+  step. change (int_shift OShl U64 1 31) with (Ok (VInt U64 (Z.of_N 2147483648))). cbn.
+  rewrite checked_ok by (apply in_range_u64; lia). cbn. change 2147483648 with (Z.of_N 2147483648). rewrite <- N2Z.inj_add.
   step. rewrite !int_shr_ok by lia. rewrite !shr32. cbn.
-  pose proof (div32_lt ah_bl Hp1) as Hd1. pose proof (div32_lt al_bh Hp2) as Hd2. unfold two32N in Hd1, Hd2.
-  assert (Hah_bh : (ah_bh < two64N)%N) by (unfold two64N; nia).
+  pose proof (div32_lt ah_bl Hp1) as Hd1. pose proof (div32_lt al_bh Hp2) as Hd2. unfold two32N in Hd1, Hd2 |- *.
   rewrite checked_ok by (apply in_range_u64; unfold two64N in *; lia). cbn. rewrite <- N2Z.inj_add.
   rewrite checked_ok by (apply in_range_u64; unfold two64N in *; lia). cbn. rewrite <- N2Z.inj_add.
   change 18446744073709551616%N with two64N in *.
@@ -195,6 +202,8 @@ Proof.
   rewrite <- N2Z.inj_add.
   rewrite checked_ok.
   2:{ apply in_range_u64. split; [lia|].
+      pose proof (ef_mul_round (mkEF ma ea) (mkEF mb eb) Hma Hmb) as [_ Hround].
+      unfold ef_mul in Hround. cbn [mant exp] in Hround. rewrite <- Eah, <- Eal, <- Ebh, <- Ebl, <- E1, <- E2, <- E3, <- E4 in Hround.
       assert (Z.of_N ma * Z.of_N mb <= (2 ^ 64 - 1) * (2 ^ 64 - 1)) by (unfold two64N in *; nia).
       change (2 ^ 64) with 18446744073709551616 in *. change (2 ^ 63) with 9223372036854775808 in *. lia. }
   cbn. rewrite checked_ok by inr. cbn. rewrite checked_ok by inr. cbn. reflexivity.
